@@ -468,7 +468,7 @@ TRIPLE_CLASSES = ["random", "random", "random", "del_vs_edit", "del_vs_edit", "i
                   "minor_diff", "retype", "empty_source", "both_append_outputs", "exec_count", "fixture",
                   "nbmeta_conflict", "out_meta_conflict", "multi_line_meta", "del_vs_transient", "del_vs_transient",
                   "both_insert_lists", "nul_in_source", "same_insert_edit_below", "transient_meta_conflict",
-                  "del_vs_output_edit", "large_outputs", "long_notebook", "wide_metadata", "both_rerun", "both_rerun", "same_size_sides", "repeated_content", "same_frame_insert", "cr_progress", "both_reid", "same_id_insert", "slash_keys"]
+                  "del_vs_output_edit", "large_outputs", "long_notebook", "wide_metadata", "both_rerun", "both_rerun", "same_size_sides", "repeated_content", "same_frame_insert", "cr_progress", "both_reid", "same_id_insert", "slash_keys", "same_edit_insert_above"]
 
 
 def merge_triple(gen, cls=None, minor=None, plain_eol=False):
@@ -992,6 +992,42 @@ def merge_triple(gen, cls=None, minor=None, plain_eol=False):
             hr[a_ + "/" + b_]["t"] = "R"
             hr[a_][b_]["v"] = [1, 5]
         info = {"target": tgt, "how": how, "names": [a_, b_]}
+    elif cls == "same_edit_insert_above":
+        # both sides make the IDENTICAL in-line edit of one line (the same fix on both branches, the same changed output
+        # line after a re-run) and one side (or both, differently) also inserts a new line directly in front of it - in a
+        # source, a stream text, a text/plain value and a multi-line metadata string
+        n = r.choice([3, 4, 6])
+        lines = ["value_%d = compute(%d)" % (j, r.randrange(100)) for j in range(n)]
+        text = "\n".join(lines) + "\n"
+        c = _code_cell(gen, m, text, [{"output_type": "stream", "name": "stdout", "text": text},
+                                      {"output_type": "display_data", "metadata": {}, "data": {"text/plain": text}}])
+        c["execution_count"] = None
+        c["metadata"]["notes"] = text
+        pos = r.randrange(len(base["cells"]) + 1)
+        for nb in (base, loc, rem):
+            nb["cells"].insert(pos, copy.deepcopy(c))
+        j = r.randrange(n)
+        fixed = lines[j].replace("compute", "compute_fixed")
+        who = r.choice(["local", "remote", "both"])
+        def variant(side):
+            ls = list(lines)
+            ls[j] = fixed
+            if who in (side, "both"):
+                ls.insert(j, "# inserted above by %s" % side)
+            return "\n".join(ls) + "\n"
+        where = r.sample(["source", "stream", "text/plain", "metadata"], r.choice([1, 2, 4]))
+        for side, nb in (("local", loc), ("remote", rem)):
+            cc = nb["cells"][pos]
+            t = variant(side)
+            if "source" in where:
+                cc["source"] = t
+            if "stream" in where:
+                cc["outputs"][0]["text"] = t
+            if "text/plain" in where:
+                cc["outputs"][1]["data"]["text/plain"] = t
+            if "metadata" in where:
+                cc["metadata"]["notes"] = t
+        info = {"pos": pos, "line": j, "who_inserts": who, "where": where}
     elif cls == "nul_in_source":
         # a NUL character inside a source (valid JSON, valid notebook): external text tools treat the text as binary
         lines = ["line one of %d" % r.randrange(99), "binary \x00 payload pasted here", "line three", "line four"]
